@@ -108,6 +108,20 @@ def independent_axes(w):
     return sorted((root_axes & nonempty) - reduced - internal), sorted(reduced & root_axes)
 
 
+def _generated_axes_used_downstream(w):
+    """Internal (generated) axes of some function's output that another function maps over (never reduced)."""
+    out = []
+    ind_all, red = independent_axes(w)
+    for fd in w["functions"]:
+        if not fd.get("out_shape"):
+            continue
+        for a in c05_internal_axes(fd):
+            users = [g for g in w["functions"] if g is not fd and g.get("mapspec") and any(a in spec for spec in in_specs(g).values())]
+            if users and a not in red and a not in out:
+                out.append(a)
+    return out
+
+
 def _grown_axes(w):
     """Axes that are independent while the last function is not yet part of the pipeline and reduced once it is."""
     if len(w["functions"]) < 2:
@@ -203,7 +217,9 @@ def gen_case(tape, tier):
     if fam == "reject":
         red = [a for a in red if w["indices"][a] > 0]  # on an empty axis index 0 is also out of range (IndexError is right)
         grown = _grown_axes(w)
-        kind = tape.pick(["unknown", "range"] + (["reduced"] if red else []) + (["reduced-after-add"] * 2 if grown else []), "reject-kind")
+        gen_axes = _generated_axes_used_downstream(w)
+        kind = tape.pick(["unknown", "range"] + (["reduced"] if red else []) + (["reduced-after-add"] * 2 if grown else [])
+                         + (["range-generated"] * 2 if gen_axes else []), "reject-kind")
         if kind == "unknown":
             # a name that is not an axis: made up, or the name of something else the pipeline knows (an array, an
             # output, a scalar input, a function), alone or next to a valid axis
@@ -214,12 +230,24 @@ def gen_case(tape, tier):
                 fixed[tape.pick(ind, "axis")] = 0
         elif kind == "reduced-after-add":
             fixed = {tape.pick(grown, "axis"): 0}
+        elif kind == "range-generated":
+            # an axis that a function generates (no input carries it) and a later function maps over: out of range there
+            a = tape.pick(gen_axes, "axis")
+            fixed = {a: w["indices"][a] + tape.choose(3, "over")}
+            if tape.coin(0.6, "fix-all-axes-of-a-user"):
+                # ... together with (valid) ints for every other axis of one function that maps over it
+                users = [g for g in w["functions"] if g.get("mapspec") and any(a in spec for spec in in_specs(g).values())]
+                g = tape.pick(users, "user")
+                for spec in in_specs(g).values():
+                    for b in spec:
+                        if b not in (":", a) and b not in fixed and w["indices"].get(b, 0) > 0:
+                            fixed[b] = 0
         elif kind == "range":
             a = tape.pick(ind, "axis")
             fixed = {a: w["indices"][a] + tape.choose(2, "over")}
         else:
             fixed = {tape.pick(red, "axis"): 0}
-        return {"family": "reject", "workload": w, "fixed": fixed, "kind": kind,
+        return {"family": "reject", "workload": w, "fixed": fixed, "kind": kind, "via_learners": bool(tape.coin(0.4, "via-learners")),
                 "config": {"storage": tape.pick(list(C.STORAGES), "storage")}}
     if fam == "parts":
         output_fns = None
@@ -242,6 +270,12 @@ def gen_case(tape, tier):
         for a in axes:
             parts = [dict(p, **{a: x}) for p in parts for x in per_axis[a]]
         parts = tape.shuffle(parts, "part-order")[:8]
+        if tape.coin(0.2, "empty-part"):
+            # a part that selects nothing (a worker that got an empty chunk): slice(0, 0), slice(None, 0), slice(n, n)
+            a = tape.pick(axes, "empty-axis")
+            n_a = w["indices"][a]
+            empty = tape.pick([[0, 0, None], [None, 0, None], [n_a, n_a, None], [1, 1, None]], "empty-slice")
+            parts.insert(tape.choose(len(parts) + 1, "empty-pos"), {a: {"slice": empty}})
         ex = tape.pick(["sequential", "sequential", "single"], "exec")
         executor = {"kind": "sequential"}
         if ex == "single":
@@ -474,19 +508,38 @@ def run_case(case, exec_seed=None, exec_tape=None):
                 V("reject", "user-code-ran-before-rejection", {"fixed": case["fixed"], "calls": len(sim.calls) - state["calls_before"]})
             probes["reject:reduced-after-add"] = 1
         elif fam == "reject":
+            via_learners = bool(case.get("via_learners"))
+
             def go(sim):
                 p = build_pipeline(w)
+                if via_learners:
+                    # the same request through create_learners: refused at creation or when the learners are driven
+                    from pipefunc.map.adaptive import create_learners
+
+                    ld = create_learners(p, build_inputs(w), folder, internal_shapes=map_kwargs(w).get("internal_shapes"),
+                                         storage=case["config"]["storage"], fixed_indices=_fx(case["fixed"]))
+                    for gens in ld.values():
+                        for gen in gens:
+                            for lp in gen:
+                                while not lp.learner.done():
+                                    pts, _ = lp.learner.ask(1)
+                                    for pt in pts:
+                                        lp.learner.tell(pt, lp.learner.function(pt))
+                    return ld
                 return p.map(build_inputs(w), run_folder=folder, parallel=False, storage=case["config"]["storage"],
                              fixed_indices=_fx(case["fixed"]), cleanup=False, **map_kwargs(w))
 
             _r, err, sim = process(go)
-            exp = IndexError if case["kind"] == "range" else ValueError
+            # (a generated axis may also be reduced somewhere: either refusal is a refusal)
+            exp = IndexError if case["kind"] == "range" else ((IndexError, ValueError) if case["kind"] == "range-generated" else ValueError)
             if err is None:
-                V("reject", f"{case['kind']}-accepted", {"fixed": case["fixed"]})
+                V("reject", f"{case['kind']}-accepted", {"fixed": case["fixed"], "via_learners": via_learners})
             elif not isinstance(err, exp):
                 V("reject", f"{case['kind']}-raised-{type(err).__name__}", {"fixed": case["fixed"], "exc": repr(err)[:300]},
                   {"frame": _frame(err)})
-            elif sim.calls:
+            elif sim.calls and case["kind"] != "range-generated":
+                # (the length of a generated axis is only enforced where the selection is built: upstream functions that do
+                # not carry the axis may legitimately have run by then)
                 V("reject", "user-code-ran-before-rejection", {"fixed": case["fixed"], "calls": len(sim.calls)})
             probes[f"reject:{case['kind']}"] = 1
         elif fam == "parts":
